@@ -6,6 +6,16 @@ use tracing::span::{Attributes, Id, Record};
 use tracing::{Event, Metadata, Subscriber};
 
 pub struct Sink;
+thread_local! { static LOG_ON: std::cell::Cell<Option<bool>> = const { std::cell::Cell::new(None) }; }
+static DEFAULT_ON: std::sync::atomic::AtomicBool = std::sync::atomic::AtomicBool::new(true);
+/// per-thread switch: the quick tier of C01 listens on every third slice of its largest families only
+pub fn listen(on: bool) {
+    LOG_ON.with(|l| l.set(Some(on)));
+}
+/// what threads that never called `listen` do (the library's own worker threads): on, unless a check says otherwise
+pub fn listen_default(on: bool) {
+    DEFAULT_ON.store(on, std::sync::atomic::Ordering::Relaxed);
+}
 struct V(usize);
 impl Visit for V {
     fn record_debug(&mut self, _f: &Field, v: &dyn std::fmt::Debug) {
@@ -15,8 +25,11 @@ impl Visit for V {
     }
 }
 impl Subscriber for Sink {
+    fn register_callsite(&self, _m: &'static Metadata<'static>) -> tracing::subscriber::Interest {
+        tracing::subscriber::Interest::sometimes()
+    }
     fn enabled(&self, _m: &Metadata<'_>) -> bool {
-        true
+        LOG_ON.with(|l| l.get()).unwrap_or_else(|| DEFAULT_ON.load(std::sync::atomic::Ordering::Relaxed))
     }
     fn new_span(&self, a: &Attributes<'_>) -> Id {
         let mut v = V(0);
